@@ -262,6 +262,13 @@ type GenOpts struct {
 	NoRemovals bool
 	// MoreAssociates adds extra tombstone / lock objects (for C04's associate primary).
 	MoreAssociates bool
+	// DeleteOnlyRegular restricts physical deletion to plain regular objects. C04
+	// needs it: the metabase drops a parent known from headers together with its
+	// last stored child, so after deleting children the holders of a distributed
+	// corpus can legitimately disagree with a single store holding the union (the
+	// union keeps the parent as long as ANY child is left anywhere, although the
+	// child that carried the header is gone from every holder).
+	DeleteOnlyRegular bool
 }
 
 // Gen draws a corpus.
@@ -373,6 +380,9 @@ func Gen(o GenOpts) *rapid.Generator[Corpus] {
 				s.Exp = rapid.IntRange(0, int(c.Epoch)-1).Draw(t, "exppast")
 			}
 			deleted := !o.NoRemovals && fate != FateExpiredLocked && fate != FateLocked && rapid.IntRange(0, 3).Draw(t, "deleted") == 0
+			if o.DeleteOnlyRegular && kind != uni.Regular {
+				deleted = false
+			}
 			if deleted && rapid.Bool().Draw(t, "longint") {
 				// integers whose spelling is longer than 78 characters on objects that get deleted
 				key := rapid.SampledFrom([]string{KeyN, KeyN, KeyA, KeyAB}).Draw(t, "longkey")
